@@ -61,6 +61,9 @@ func (m *PubackMessage) Decode(src []byte) (int, error) {
 		return total, err
 	}
 
+	// The packet ends where the fixed header says it ends.
+	src = src[:total+int(m.remlen)]
+
 	if len(src) < total+2 {
 		return total, fmt.Errorf("puback/Decode: Insufficient buffer size. Expecting %d, got %d", total+2, len(src))
 	}
@@ -68,6 +71,10 @@ func (m *PubackMessage) Decode(src []byte) (int, error) {
 	//this.packetId = binary.BigEndian.Uint16(src[total:])
 	m.packetID = src[total : total+2]
 	total += 2
+
+	if total != len(src) {
+		return total, fmt.Errorf("puback/Decode: Remaining length (%d) does not match the packet", m.remlen)
+	}
 
 	m.dirty = false
 
